@@ -9,7 +9,7 @@ HARNESS = os.path.join(vf.VERIF, 'harness/py/c04_streams.py')
 IMPL = [vf.PY, HARNESS, 'impl']
 HDR = 24
 KINDS = ['valid', 'valid_pert', 'unknown', 'flip', 'trunc', 'false_plaus', 'false_implaus', 'false_span', 'nested',
-         'dots', 'junk', 'reserved_nz', 'lenerr_greedy', 'edge16', 'same_var']
+         'dots', 'junk', 'reserved_nz', 'lenerr_greedy', 'edge16', 'same_var', 'false_exact']
 M24 = 1 << 24
 
 
@@ -111,6 +111,9 @@ class Gen:
         if kind == 'dots':
             return r.choice([b'.', b'..', b'.1', b'..1', b'.1.1', b'1.', b'.' * 5, b'.' * 23, b'.' * 24, b'.1' * 12, b'.1' * 13, b'.1\x00\x00'])
         if kind == 'junk':
+            if r.random() < 0.25:
+                # at least 23 bytes free of sync bytes, then a sync pair (or its first half) at the very end
+                return bytes(r.choice([0, 0x2f, 0x31, 0xff]) for _ in range(r.choice([23, 24, 25, 47]))) + r.choice([b'.', b'.1', b'..1', b'.1.'])
             n = r.choice([1, 2, 7, 23, 24, 25, 40])
             b = bytearray(r.choice([0, 0x31, 0x2f, 0xff, r.randrange(256)]) if r.random() < 0.3 else r.randrange(256) for _ in range(n))
             if r.random() < 0.5:
@@ -143,6 +146,13 @@ class Gen:
             if r.random() < 0.3:
                 parts.insert(1, self.valid_msg())
             return b''.join(parts)
+        if kind == 'false_exact':
+            # a false header whose claimed extent ends exactly at the start of a real message (or one byte before / after)
+            inner = b''.join(self.valid_msg() for _ in range(r.choice([1, 2, 3])))
+            d = r.choice([0, 0, 0, -1, 1])
+            ps = len(inner) - HDR + d if r.random() < 0.5 else len(inner) + d     # extent measured from the false header's end / incl. it
+            head = mk(r.choice([10000, 20000, 13120]), b'', self.nseq(), crc=r.getrandbits(32), psize=max(0, ps))
+            return head + inner + self.valid_msg()
         if kind == 'edge16':
             return mk(lib.unknown_types[1 % len(lib.unknown_types)], bytes(r.randrange(256) for _ in range(r.choice([15, 16, 17]))), self.nseq())
         raise KeyError(kind)
@@ -260,6 +270,12 @@ def classify(impl_r, model_r, spec_r):
         return {'kind': 'earlier-result-changed-after-a-later-call'}
     if '!ID' in impl_r:
         return {'kind': 'results-share-a-mutable-object'}
+    if '!IN' in impl_r:
+        return {'kind': 'caller-buffer-modified'}
+    if '!SD' in impl_r:
+        return {'kind': 'second-decoder-alive-at-the-same-time-disturbed'}
+    if '!RX' in impl_r:
+        return {'kind': 'decoder-unusable-after-a-callback-raised'}
     I, S = parse_items(impl_r), parse_items(spec_r)
     spec_unparseable = [it for _, it in S if it.endswith(',X')]
     if impl_r == model_r and spec_unparseable:
@@ -504,7 +520,7 @@ def configs_for(r, stream, k):
     """(maxp, patched maxe) choices; k rotates through the principal four"""
     sizes = valid_payload_sizes(stream)
     exact = r.choice(sizes) if sizes else 16
-    return [(0, None), (16, None), (exact, None), (M24, None)][k % 4]
+    return [(0, None), (16, None), (exact, None), (M24, None), (0, None), (16, None), (max(0, exact - 1), None), (exact + 1, None)][k % 8]
 
 
 def big_cases(ctx, lib, profile, add_case):
@@ -578,9 +594,9 @@ def build_cases(ctx, lib, profile):
     def chunkings(stream):
         n = len(stream)
         if profile == 'C04':
-            return 'ONE;BYTES;c:' + ','.join(map(str, random_partition(r, n)))
+            return 'ONE;BYTES;c:' + ','.join(map(str, random_partition(r, n))) + ';' + tokcut[0]
         parts = ['ONE', 'BYTES']
-        if n <= (400 if thorough else 220):
+        if n <= (400 if thorough else 200):
             parts.append('SPLITS')
         else:
             parts += ['c:%d,%d' % (k, n - k) for k in sorted(set(r.randrange(1, n) for _ in range(40)))]
@@ -593,7 +609,11 @@ def build_cases(ctx, lib, profile):
         j = nadd[0]; nadd[0] += 1
         cases.append(Case(tokens, maxp, maxe, rb, ro, chunkings_, origin, '%s,%d,%d' % (('likely', 'all', 'likely', 'none')[j % 4], (j // 4) % 2, (j // 8) % 2)))
 
+    tokcut = ['']
+
     def add(tokens, maxp, maxe, rb, ro, origin, opts=None):
+        # calls that end exactly at the token boundaries (a message exactly filling the buffer / ending at a call boundary)
+        tokcut[0] = 'c:' + ','.join(str(len(b)) for _, b in tokens)
         # logging options rotate independently of everything else: default ('likely') half of the time
         j = nadd[0]; nadd[0] += 1
         if opts is None:
@@ -794,7 +814,7 @@ def common_evidence(ctx, eng, profile, cases):
         'the logging options warn_on_error (none/likely/all), warn_on_gap, warn_on_unrecognized rotate over all streams (log output suppressed), '
         'maxima above 2^24 and runs with the sanity limit patched to a small value. Each stream is decoded by the implementation, by the extracted MODEL '
         '(PyDecoder_on_data) and by the extracted SPEC (feed PyDecoder_judge) under every listed chunking; per call the returned '
-        '(type, sequence, payload size, crc, raw bytes, offset, digest of payload field values) are compared with the SPEC; callbacks (catch-all and type specific, registered before the first call and between calls) must receive exactly the entries returned after their registration; every earlier entry is re-read after later calls (header, raw bytes, payload values must not change) and entries must not share mutable objects with each other or the decoder buffer; '
+        '(type, sequence, payload size, crc, raw bytes, offset, digest of payload field values) are compared with the SPEC; callbacks (catch-all and type specific, registered before the first call and between calls) must receive exactly the entries returned after their registration; on_data is called with bytes, bytearray, memoryview and int arguments in rotation and the buffers of the caller are checked unmodified and then overwritten; the returned list is mutated by the caller; in a sixth of the runs a second decoder with other settings is fed another stream between the calls; in a seventh a user callback raises once and the decoder must stay usable; every earlier entry is re-read after later calls (header, raw bytes, payload values must not change) and entries must not share mutable objects with each other or the decoder buffer; '
         'and the private attributes with the MODEL. A case = (stream, settings, chunking); distinct by its content.'
         % (len(KINDS), ', '.join(KINDS), len(eng.lib.classes), len(eng.lib.unbuildable)))
     ctx.coverage['exhaustive'] = False
